@@ -80,7 +80,7 @@ CLAIMED = {
           'built-ins not under contract, format!-built messages. abs() at MIN and nanoseconds >= 2^32 are excluded by stated preconditions.',
  },
  'C06': {
-  'text': 'Partial. Unit actions: 44 reduce actions of parser.rs build the node of their construct over their operands in written order (20 binary, 2 ternary, 7 unary operator actions; 9 list-building actions; 6 literal / name actions), from one (construct, arity) table. (literals, character classes, layout) Verus proves on the real lexer bodies: the name/digit/whitespace character classes equal grammar rules 28-30 and 61-62; white space and any number of comments '
+  'text': 'Partial. Unit actions: 59 of the 90 reduce actions of parser.rs build the node of their construct over their operands in written order (20 binary, 2 ternary, 7 unary operator actions; 9 list-building actions; 7 literal / name actions; for / some / every, list, negated tests, empty collections, path, interval ends, first parameter, call without arguments), from tables. (literals, character classes, layout) Verus proves on the real lexer bodies: the name/digit/whitespace character classes equal grammar rules 28-30 and 61-62; white space and any number of comments '
           'are skipped before a token (read_input ends at a non-layout character; consecutive comments included); consume_digits returns the maximal digit run; \\uXXXX / \\UXXXXXX escapes have their hexadecimal value; '
           'consume_unicode yields exactly the denoted scalar value for every 4-hex, 6-hex and surrogate-pair escape (UTF-8 assembly proved with bit-vector lemmas against RFC 3629) and errors otherwise; '
           'consume_string returns exactly the code points the literal denotes (all escape forms) and accepts every well-formed literal. Unit parser: the real driver loop Parser::parse does in every state exactly what the packed tables say under the Bison skeleton\'s semantics (shift / reduce / default / error and the goto after a reduction), '
